@@ -278,6 +278,21 @@ def primitive (spos : Array (V3 Rat)) (symbols : Array Nat) (pmat : M3 Rat) : Ex
       | .error e => .error e
       | .ok perms => .ok { pos := t.pos, p2s := t.extracted, s2p := s2p, mapping := t.mapping, perms := perms }
 
+/-! ### `get_primitive_matrix_by_centring` (table copied from cells.py) -/
+
+def centringMatrix : String → Option (M3 Rat)
+  | "P" => some ⟨1, 0, 0, 0, 1, 0, 0, 0, 1⟩
+  | "F" => some ⟨0, 1/2, 1/2, 1/2, 0, 1/2, 1/2, 1/2, 0⟩
+  | "I" => some ⟨-1/2, 1/2, 1/2, 1/2, -1/2, 1/2, 1/2, 1/2, -1/2⟩
+  | "A" => some ⟨1, 0, 0, 0, 1/2, -1/2, 0, 1/2, 1/2⟩
+  | "C" => some ⟨1/2, 1/2, 0, -1/2, 1/2, 0, 0, 0, 1⟩
+  | "R" => some ⟨2/3, -1/3, -1/3, 1/3, 1/3, -2/3, 1/3, 1/3, 1/3⟩
+  | _ => none
+
+/-- determinant and integrality of the inverse of a centring matrix -/
+def centringOk (m : M3 Rat) (index : Nat) : Bool :=
+  m.det * (index : Rat) == 1 && (m.inv.toList.all fun q => q.den == 1) && m.inv.det == (index : Rat)
+
 /-! ### executable certificates used by the theorems of `Props/C04.lean` -/
 
 /-- `x ≡ y (mod S ℤ³)`: `adj(S)·(x − y)` is divisible by `det S` componentwise -/
